@@ -25,6 +25,10 @@ type c09Case struct {
 	Shape  string   `json:"key_shape"`
 	NKeys  int      `json:"nkeys"`
 	Buffer int      `json:"window_output_buffer"`
+	// Strategy "expand": a 4-slot input buffer that the burst overruns and the engine grows (ceiling far above the
+	// row count, so nothing may be dropped); "" = block
+	Strategy string `json:"overflow_strategy,omitempty"`
+	FnKey    bool   `json:"function_key,omitempty"` // GROUP BY upper(k1): the window must partition by the computed value
 }
 
 func genC09(ref core.CaseRef, r *rand.Rand) *c09Case {
@@ -62,6 +66,12 @@ func genC09(ref core.CaseRef, r *rand.Rand) *c09Case {
 		}
 		allVals = append(allVals, doms[i].vals...)
 	}
+	if ncols >= 1 && ref.Index%8 == 3 {
+		// a computed grouping key, different spellings of one value interleaved with other values
+		c.FnKey = true
+		doms[0].vals = []any{"aa", "Aa", "bb", "BB", "c", "aA"}
+		allVals = append(allVals, "aa", "Aa")
+	}
 	c.Shape = keyShape(allVals)
 	n := 0
 	switch r.Intn(4) {
@@ -82,7 +92,7 @@ func genC09(ref core.CaseRef, r *rand.Rand) *c09Case {
 			}
 			row[col] = v
 		}
-		keys[tuple(row, c.Cols)] = true
+		keys[c.keyOf(row)] = true
 		c.Rows = append(c.Rows, row)
 	}
 	c.NKeys = len(keys)
@@ -95,12 +105,20 @@ func genC09(ref core.CaseRef, r *rand.Rand) *c09Case {
 			c.Rows = c.Rows[:40]
 		}
 	}
+	if ref.Index%6 == 5 && c.Feed != "gaps" {
+		// (window output stays large: outside the block strategy a full window output displaces results, which
+		// the engine reports as dropped and the monitor then calls inconclusive)
+		c.Strategy, c.Feed, c.Buffer = "expand", "burst", 4096
+	}
 	sel := []string{}
 	for _, col := range c.Cols {
 		sel = append(sel, col)
 	}
 	sel = append(sel, "count(*) AS c", "collect(id) AS ids", "first_value(id) AS f", "last_value(id) AS l", "sum(v) AS s")
 	gb := append(append([]string{}, c.Cols...), fmt.Sprintf("CountingWindow(%d)", c.N))
+	if c.FnKey {
+		sel[0], gb[0] = "upper(k1) AS k1", "upper(k1)"
+	}
 	c.SQL = "SELECT " + strings.Join(sel, ", ") + " FROM stream GROUP BY " + strings.Join(gb, ", ")
 	return c
 }
@@ -126,12 +144,27 @@ func runC09(ctx *core.Ctx) {
 	ctx.Count("perturbation_actions", sched.Acted())
 }
 
+// keyOf is the typed key tuple a row is grouped under (the computed value for a function key).
+func (c *c09Case) keyOf(row Row) string {
+	if !c.FnKey {
+		return tuple(row, c.Cols)
+	}
+	cp := Row{}
+	for k, v := range row {
+		cp[k] = v
+	}
+	if s, ok := row["k1"].(string); ok {
+		cp["k1"] = strings.ToUpper(s)
+	}
+	return tuple(cp, c.Cols)
+}
+
 func execC09(ctx *core.Ctx, c *c09Case) {
 	// reference: per typed key, consecutive slices of N ids in arrival order
 	perKey := map[string][]Row{}
 	order := []string{}
 	for _, row := range c.Rows {
-		k := tuple(row, c.Cols)
+		k := c.keyOf(row)
 		if _, ok := perKey[k]; !ok {
 			order = append(order, k)
 		}
@@ -146,6 +179,13 @@ func execC09(ctx *core.Ctx, c *c09Case) {
 		}
 	}
 	ro := runOpts{Opts: eng.Opts{WindowOut: c.Buffer}, Expect: expect}
+	if c.Strategy == "expand" {
+		ro.Opts.Strategy, ro.Opts.DataChan, ro.Opts.MaxBuffer = "expand", 4, 1<<16
+		ctx.Count("cases_expand_strategy", 1)
+	}
+	if c.FnKey {
+		ctx.Count("cases_function_key", 1)
+	}
 	switch c.Feed {
 	case "gaps":
 		ro.Opts.BlockTimeout = 30 * time.Millisecond
